@@ -92,3 +92,22 @@ def last_values(path):
         if m and m.group(3) != "?":
             last[(m.group(1), m.group(2))] = m.group(3)
     return last
+
+
+def error_only_keys(path):
+    """independent reader: (subunit, function) pairs that the recording shows as queried and answered with an error line, and never with a
+    value (the line after a sent GET is @UNDEFINED / @RESTRICTED)"""
+    from .extract import LINE_RE, read_recording
+    errs, vals = set(), set()
+    pending = None
+    for kind, text in read_recording(path):
+        m = LINE_RE.match(text)
+        if kind == "send":
+            pending = (m.group(1), m.group(2)) if m and m.group(3) == "?" else None
+        elif kind == "recv":
+            if m and m.group(3) != "?":
+                vals.add((m.group(1), m.group(2)))
+            elif text in ("@UNDEFINED", "@RESTRICTED") and pending is not None:
+                errs.add(pending)
+            pending = None
+    return errs - vals
